@@ -1,4 +1,5 @@
 PROP = dict(
+        tie_coq=["Properties/TieC08.v"],
         coq="Properties/C08.v",
         workloads=[
             dict(name="lend-histories", go_test="TestC08", runner="C08",
